@@ -236,3 +236,11 @@ var probeClockBack = []emitted{
 	hist(cNewTask("title", "A"), cNewTask("title", "B"), cClockBack(), cClaim("a1"), cSet("i1", "title", "A2"), cSet("i2", "state", "done"), cListReady(), cCompact(), cListReady(), cCompact()),
 	hist(cNewEpic("E"), cNewTask("title", "A", "epic", "i1"), cClockBack(), cSet("i2", "epic", ""), cSet("i2", "body", "later but earlier"), cResult("i2", "r", "r1.txt"), cCompact(), cCompact()),
 }
+
+// a long history (several hundred events), then every kind of read
+func cGrow(id string, n int) Cmd { return Cmd{"name": "grow", "mode": "json", "id": id, "n": n} }
+
+var probeLongHistory = []emitted{
+	hist(cNewTask("title", "A"), cNewTask("title", "B"), cGrow("i1", 300), Cmd{"name": "list", "mode": "json"}, Cmd{"name": "list_all", "mode": "json"}, cListReady(),
+		Cmd{"name": "show", "mode": "json", "id": "i1"}, cClaim("a1"), cSet("i2", "state", "done"), cPruneDry(), cCompact(), Cmd{"name": "list", "mode": "json"}),
+}
